@@ -297,7 +297,11 @@ class Emitter:
         fields = []
         q = self.ix.qual.get(rec["id"], "")
         for b in rec.get("bases", []):
-            bt = self.ctype(b["type"])
+            try:
+                bt = self.ctype(b["type"])
+            except ExtractionError:
+                self.report["base classes of unmapped (std::) type dropped from record layouts"] += 1
+                continue
             brec = self.find_record(strip_ns(b["type"].get("desugaredQualType") or b["type"]["qualType"]))
             if brec is not None and any(c.get("kind") == "FieldDecl" for c in brec.get("inner", [])):
                 fields.append(bt.decl("base_%s" % bt.base))
@@ -307,7 +311,13 @@ class Emitter:
                 if key in self.cfg.field_type_override:
                     fields.append(self.cfg.field_type_override[key] % c["name"])
                     continue
-                ft = self.ctype(c["type"])
+                try:
+                    ft = self.ctype(c["type"])
+                except ExtractionError:
+                    # a member the extracted code never touches directly: laid out as an opaque byte (any access fails to compile)
+                    self.report["fields of unmapped type laid out as xc_opaque"] += 1
+                    fields.append("xc_opaque " + c["name"])
+                    continue
                 if ft.is_ref:
                     ft = CT(ft.base, ft.ptr, ft.dims, False, ft.const)
                 fields.append(ft.decl(c["name"]))
@@ -401,6 +411,89 @@ class Emitter:
         finally:
             self.cur = saved
             self.in_progress.discard(cname)
+        self.funcs[cname] = fo
+        return cname
+
+    # ------------------------------------------------------------------ slices
+    def need_slice(self, decl, first_var, last_var, cname):
+        """Extract the top-level statements of `decl` from the declaration of first_var up to and including the declaration of
+        last_var as a C function. Variables of the enclosing function used in the slice become pointer parameters (in/out);
+        variables declared by the slice are exported through out-parameters xc_out_<name>."""
+        if cname in self.funcs:
+            return cname
+        body = body_of(decl)
+        stmts = body.get("inner", [])
+
+        def declares(st, name):
+            return st.get("kind") == "DeclStmt" and any(v.get("kind") == "VarDecl" and v.get("name") == name for v in st.get("inner", []))
+        a = [i for i, st in enumerate(stmts) if declares(st, first_var)]
+        excl = last_var.startswith("<")       # "<name": up to, but excluding, the declaration of name
+        to_end = last_var == "$return"        # through the end of the function: the slice returns the function's value
+        b = [i for i, st in enumerate(stmts) if declares(st, last_var.lstrip("<"))] if not to_end else [len(stmts) - 1]
+        if len(a) != 1 or len(b) != 1 or a[0] > b[0]:
+            raise ExtractionError("slice anchors %s..%s not found exactly once in %s" % (first_var, last_var, cname))
+        sl = stmts[a[0]:b[0] + (0 if excl else 1)]
+        declared = {}
+        for st in sl:
+            if st.get("kind") == "DeclStmt":
+                for v in st.get("inner", []):
+                    if v.get("kind") == "VarDecl":
+                        declared[v["id"]] = v
+        inner_ids = set()
+        free = collections.OrderedDict()
+
+        def walk(n):
+            if not isinstance(n, dict):
+                return
+            if n.get("kind") == "VarDecl":
+                inner_ids.add(n["id"])
+            if n.get("kind") == "DeclRefExpr":
+                r = n["referencedDecl"]
+                if r.get("kind") in ("ParmVarDecl", "VarDecl") and r["id"] not in inner_ids and r["id"] in self.ix.by_id \
+                        and not self._is_global_var(self.ix.by_id[r["id"]]):
+                    free.setdefault(r["id"], self.ix.by_id[r["id"]])
+            for c in n.get("inner", []):
+                walk(c)
+        for st in sl:
+            walk(st)
+        fo = FuncOut(cname, decl)
+        fo.qual = self.ix.qual.get(decl["id"], decl.get("name")) + " [slice %s..%s]" % (first_var, last_var)
+        fo.line = sl[0].get("range", {}).get("begin", {}).get("line", 0) or decl.get("loc", {}).get("line", 0)
+        rec = self.ix.record_of_method(decl)
+        ctx = {"decl": decl, "cname": cname, "loop": 0, "spec": {}, "refs": {}, "self": "ptr", "ret_ref": False, "lambda_caps": None,
+               "tmp": 0, "fo": fo, "byval_refs": set(), "rt": self.ctype(self._return_type_str(decl)) if to_end else CT("void")}
+        saved = self.cur
+        self.cur = ctx
+        try:
+            params = ["%s *self" % self.need_struct(rec)] if rec is not None else []
+            for vid, v in free.items():
+                vt = self.ctype(v["type"])
+                if vt.is_ref:
+                    vt = vt.pointee()
+                params.append(vt.pointer_to().decl(v["name"]) if not vt.dims else vt.decl(v["name"]))
+                if not vt.dims:
+                    ctx["refs"][vid] = True
+            outs = []
+            for vid, v in declared.items():
+                vt = self.ctype(v["type"])
+                if vt.is_ref or vt.dims:
+                    continue
+                params.append(vt.pointer_to().decl("xc_out_" + v["name"]))
+                outs.append(v["name"])
+            lines = [self.stmt(st, 1) for st in sl]
+            if to_end:
+                outs = []
+                params = [p_ for p_ in params if " *xc_out_" not in p_ and "*xc_out_" not in p_]
+            for o in outs:
+                lines.append("  *xc_out_%s = %s;" % (o, o))
+            contract = self.contracts.get(cname, {})
+            pre = contract.get("pre", "")
+            fo.proto = "%s(%s)" % (ctx["rt"].decl(cname), ", ".join(params) if params else "void")
+            fo.nloops = ctx["loop"]
+            fo.body = fo.proto + "\n" + pre + ("\n" if pre and not pre.endswith("\n") else "") + "{\n" + "\n".join(l for l in lines if l) + "\n}\n"
+            self.report["function slices extracted (free variables become in/out pointer parameters)"] += 1
+        finally:
+            self.cur = saved
         self.funcs[cname] = fo
         return cname
 
@@ -1530,8 +1623,7 @@ class Emitter:
             return h(self, self.expr(args[0]), args[1:], n)
         if d.get("kind") == "CXXMethodDecl":
             rec = self.ix.record_of_method(d)
-            if r["name"] == "operator=" and (d.get("isImplicit") or d.get("explicitlyDefaulted")) and body_of(d) is None or \
-                    (r["name"] == "operator=" and d.get("isImplicit")):
+            if r["name"] == "operator=" and (d.get("isImplicit") or d.get("explicitlyDefaulted")):
                 self.report["trivial assignment operators turned into struct assignment"] += 1
                 return "%s = %s" % (self.pexpr(args[0]), self.pexpr(args[1]))
             # call of a lambda object / specialised function_ref parameter
